@@ -346,15 +346,19 @@ def function_id(func):
     return fid
 
 
-def coq_fstate(func, oid=None):
+def coq_fstate(func, oid=None, declared=None):
     """Coq literal of the function's current state (call it BEFORE set_class_constraints; for
-    BlockSmoothConvexFunction every recorded gradient is partitioned first, so that generation creates no point)"""
+    BlockSmoothConvexFunction every recorded gradient is partitioned first, so that generation creates no point).
+    `declared` = the keyword arguments the function was DECLARED with: the model is given those, not what the
+    constructor stored (seed C04-12: `mu or -L` turning the declared mu = 0 into -L)."""
     if oid is None:
         oid = ObjIds()
     par, inf = {}, {}
     for nm, idx in PARAMS.items():
         if hasattr(func, nm) and not isinstance(getattr(func, nm), list):
             val = getattr(func, nm)
+            if declared is not None and nm in declared and not isinstance(declared[nm], list):
+                val = declared[nm]
             if val == INF:
                 inf[idx] = True
                 par[idx] = Fraction(0)
